@@ -11,6 +11,17 @@ PY = "/venv/bin/python"
 
 # property -> (technique, level text, level note, design ref)
 CLAIMED = {
+    "C13": ("TLA+ state machine of the Dataset as a heap of Axis objects with identity (spec/DatasetHeap.tla, 11 actions, invariants Sharing / "
+            "UniqueNames / NoLeak / DimsExact / VarsWellFormed, action property RejectUnchanged) model-checked by TLC; every edge of the bounded state "
+            "graph and seeded random behaviours replayed on a real Dataset; recorded real executions validated against spec/TraceDataset.tla",
+            "TLC checks the invariants on every reachable state to depth 3 (thorough 4) of the 2-key / 3-name / 31-candidate model; the edge generator "
+            "(history hidden by a VIEW) emits every transition of the depth-2 graph and of the depth-3 graph over a reduced candidate pool (thorough: "
+            "depth 3 / 4) with a shortest path, plus 600 (6000) random behaviours of depth 8 (12); each is replayed on dimarray.Dataset comparing keys, "
+            "dims, labels, cells and axis identity (`is`) after every step, and the whole state after every rejected assignment. In the other direction "
+            "400 (4000) randomly driven executions of the real Dataset (3 keys, 8 names, arbitrary labels) are recorded and TLC accepts each only if "
+            "every call is an enabled action leading to the logged state; corrupted control traces must be rejected on every run.",
+            "Trusted: TLC, the Dataset projection (identity via `is`), NumPy. Renaming to a name in use is not generated.",
+            "5 (C13)"),
     "C18": ("TLA+ specification of interp_axis / interp_like (spec/MC_C18.tla: bracketing nodes in sorted order and exact rational weights per "
             "output cell, fills outside the range) model-checked by TLC (ExactAtNodes, AxisIsNew, OrderIndependent) and replayed",
             "TLC enumerates every node sequence over the universe in every stored order x new coordinate vectors over a half-unit grid (points below, "
